@@ -10,6 +10,7 @@ CONSTANTS
   Roles = {"server", "client"}
   Modes = {"receptor", "dns"}
   StreamSrcs <- StreamSrcsQuick
+  KF_DigestCachedAcrossCalls = FALSE
   KF_ColonSplit = TRUE
   DumpFile = ""
 INVARIANTS
